@@ -1,6 +1,6 @@
 (* Engine `subhist` (C04, C06), model side: replays one script line on the extracted SubBook LTS.
    Same line protocol as harness/src/bin/subhist.rs:
-     in : [E<server|tower>] K<cap> C<nconns> step step ...
+     in : [E<server|tower|towermw>[+r]] K<cap> C<nconns> step step ...
           (E = the entry point the REAL server is assembled through; the model is entry-point independent -- one
            semaphore per connection, Model/SubBook.v -- and ignores the token)
      out: {"c":[[frames of conn 0],..],"end":[..],"r":[result of every step]}
